@@ -11,7 +11,8 @@ Families (helpers in hsverif/c12_*.py):
   flex      FlexiblePaxosNode, every (Q1, Q2) with Q1 + Q2 > N
   multi     MultiPaxosNode, take-over, heartbeats
   election  LeaderElection x {Bully, Ring, Randomized}, member views full / converging / join, crashes
-  lock      DistributedLock, random acquire / try / release (own, stale, bogus token) / expiry strings
+  lock      DistributedLock, 1-3 lock names on one manager, random acquire / try / release (own, stale, bogus token) /
+            expiry strings; tokens strictly increasing over all grants of the manager in grant-time order
 """
 
 from __future__ import annotations
@@ -28,7 +29,7 @@ RULE = (
     "Cases are JSON values drawn from a per-case RNG: cluster size 3-5, proposal / start / submit times, a chaosnet "
     "delay script (uniform, bimodal with a tail slower than the retry / heartbeat timeout, per-link asymmetric, "
     "targeted per message type; iid loss up to 30 %), symmetric and asymmetric partition windows, crash windows "
-    "(election), quorum pair (flex: uniformly among all Q1+Q2>N), lock op strings with gaps around the lease. "
+    "(election), proposal values / commands that are unique and in a third of the cases include one falsy value (0, '', False, 0.0, [], {}), quorum pair (flex: uniformly among all Q1+Q2>N), lock op strings with gaps around the lease. "
     "12-15 % of the Paxos cases are fault-free (loss-free, every delay <= max_delay) and carry the bounded-liveness "
     "clause: single proposer decided at every node within 6 message delays; command submitted to an established "
     "leader applied at every node within 3 heartbeat intervals + 6 message delays. "
